@@ -98,7 +98,7 @@ theorem lincode_column_missing_refused (pp : Params F D) (point : Point F) (c : 
     (hc : π.opening.columns[j]? = none) :
     ∃ e, checkOne pp point c value π o = .error e := by
   apply checkOne_error_of_not_pre
-  rintro a ⟨_, _, _, w, b, _, _, _, hcols, _⟩
+  rintro a ⟨_, _, _, w, b, _, _, _, _, _, hcols, _⟩
   obtain ⟨col, x, hc', _⟩ := hcols j q hq
   rw [hc] at hc'; cases hc'
 
@@ -110,7 +110,7 @@ theorem lincode_column_mismatch_refused (pp : Params F D) (point : Point F) (c :
     (hx : w[q]? = some x) (hne : dot b col ≠ x) :
     ∃ e, checkOne pp point c value π o = .error e := by
   apply checkOne_error_of_not_pre
-  rintro a' ⟨_, _, _, w', b', hw', _, ht', hcols, _⟩
+  rintro a' ⟨_, _, _, w', b', hw', _, ht', _, _, hcols, _⟩
   rw [hw] at hw'; cases hw'
   rw [ht] at ht'; cases ht'
   obtain ⟨col', x', hc', hx', hd⟩ := hcols j q hq
@@ -126,7 +126,7 @@ theorem lincode_wf_column_mismatch_refused (pp : Params F D) (point : Point F) (
     (hy : ww[q]? = some y) (hne : dot o.r col ≠ y) :
     ∃ e, checkOne pp point c value π o = .error e := by
   apply checkOne_error_of_not_pre
-  rintro a' ⟨_, _, _, w', b', _, _, _, _, hwfc⟩
+  rintro a' ⟨_, _, _, w', b', _, _, _, _, _, _, hwfc⟩
   obtain ⟨wf', ww', h1, h2, h3⟩ := hwfc hflag
   rw [hwf] at h1; cases h1
   rw [hw] at h2; cases h2
@@ -141,7 +141,7 @@ theorem lincode_position_out_of_range_refused (pp : Params F D) (point : Point F
     (hq : o.indices[j]? = some q) (hw : pp.enc π.opening.v = .ok w) (hx : w[q]? = none) :
     ∃ e, checkOne pp point c value π o = .error e := by
   apply checkOne_error_of_not_pre
-  rintro a' ⟨_, _, _, w', b', hw', _, _, hcols, _⟩
+  rintro a' ⟨_, _, _, w', b', hw', _, _, _, _, hcols, _⟩
   rw [hw] at hw'; cases hw'
   obtain ⟨col', x', _, hx', _⟩ := hcols j q hq
   rw [hx] at hx'; cases hx'
